@@ -130,6 +130,8 @@ def ref_value(v: Any, mask: int, shift: bool) -> Any:
 
 def ref_node(n: Any, mask: int, shift: bool) -> dict:
     d = {f.name: ref_value(getattr(n, f.name), mask, shift) for f in dataclasses.fields(n)}
+    if type(n).__name__ == "BombNode":
+        d["Added"] = len(n.items)  # the class's own __post_serialize__ hook adds this key (no field of that name)
     out = _finish(type(n).__name__, d, mask)
     if mask & O_EXPL:
         out["_children"] = [f.name for f in M.child_fields(type(n).__name__)]
